@@ -260,9 +260,10 @@ def run_api(case, idx):
         ffis = build_ffis(case)
         names = ["c34api_%d_m%d" % (idx, k) for k in range(len(ffis))]
         for f, n, m in zip(ffis, names, case["mods"]):
-            src = "\n".join(['#include "%s.h"' % names[j] for j in m["includes"]]) + "\n" + m["csource"]
             with open(os.path.join(d, n + ".h"), "w") as h:
-                h.write("\n".join(['#include "%s.h"' % names[j] for j in m["includes"]]) + "\n" + m["cheader"])
+                h.write("#ifndef H_%s\n#define H_%s\n" % (n, n)
+                        + "\n".join(['#include "%s.h"' % names[j] for j in m["includes"]]) + "\n" + m["cheader"]
+                        + "\n#endif\n")
             f.set_source(n, '#include "%s.h"\n' % n + m["cbody"], include_dirs=[d])
         for f, n in zip(ffis, names):
             f.compile(tmpdir=d)
